@@ -1101,6 +1101,40 @@ theorem dispatch_unsupported (c : Connection S) (command : Nat) (rest : Bytes) (
   obtain ⟨h1, h2, h3, h4, h5, h6, h7, h8, h9, h10, h11, h12, h13, h14⟩ := h
   simp [h1, h2, h3, h4, h5, h6, h7, h8, h9, h10, h11, h12, h13, h14]
 
+/-- **A whole COM_QUERY exchange on the code**: packet `0x03 · payload` in, and on the wire — for a result set whose row source
+    yields `rows` and then (if `boom`) raises: the metadata, the rows, then either the terminator and a drain or exactly one ERR;
+    in both cases the sequence reset last.  (Composition of the command step with `handle_query`.) -/
+theorem query_command_response (c : Connection S) (payload : Bytes) (q : ComQuery S) (rs : ResultSet S)
+    (hp : Mimic.Extracted.ParsersCode.parse_com_query E c.capabilities c.client_charset payload = some q) (ha : app q.sql = some rs)
+    (hne : rs.columns.isEmpty = false) :
+    ∃ (w f l w2 fl : Nat),
+      let pre := if deprecate_eof c then [] else [Ev.write (eof c w f) false]
+      let sent := c.out ++ queryMeta coldef c rs ++ pre ++ rs.rows.rows.map (fun p => Ev.write p false)
+      (command_step E cp pc coldef parse app other err c (3 :: payload)).2 = true ∧
+      ∃ e : Bytes, (command_step E cp pc coldef parse app other err c (3 :: payload)).1.out
+        = if rs.rows.boom then sent ++ [Ev.write e true, Ev.reset_seq]
+          else sent ++ [Ev.write (ok_or_eof c rs.rows.rows.length l w2 fl) false, Ev.drain, Ev.reset_seq] := by
+  have hs := command_step_spec E cp pc coldef parse app other err c (3 :: payload)
+  have hq := handle_query_spec E coldef app ({ c with _executing := true } : Connection S) payload
+  have hp' : Mimic.Extracted.ParsersCode.parse_com_query E ({ c with _executing := true } : Connection S).capabilities
+      ({ c with _executing := true } : Connection S).client_charset payload = some q := hp
+  simp only [hp', ha, hne, Bool.false_eq_true, if_false] at hq
+  obtain ⟨w, f, l, w2, fl, hq⟩ := hq
+  have hd : dispatch E cp pc coldef parse app other ({ c with _executing := true } : Connection S) (3 : UInt8).toNat payload
+      = (handle_query E coldef app ({ c with _executing := true } : Connection S) payload).map some := by
+    simp [dispatch]
+  refine ⟨w, f, l, w2, fl, ?_⟩
+  dsimp only at hs
+  rw [hd, hq] at hs
+  by_cases hb : rs.rows.boom = true
+  · simp only [hb, if_true, Except.map] at hs ⊢
+    rw [hs]
+    exact ⟨rfl, _, by simp only [queryMeta, deprecate_eof, eof, List.append_assoc]; rfl⟩
+  · have hb' : rs.rows.boom = false := by simpa using hb
+    simp only [hb', Bool.false_eq_true, if_false, Except.map] at hs ⊢
+    rw [hs]
+    exact ⟨rfl, [], by simp only [queryMeta, deprecate_eof, eof, ok_or_eof, ok, List.append_assoc, List.cons_append, List.nil_append]; rfl⟩
+
 end step
 
 end MimicProofs.HandlersCode
